@@ -20,6 +20,8 @@ CHECKS.update({
           'dimensions 1-4; integer inputs |x| <= 1000 (30 for cubic identities); fuel/forks as above'),
  'C04': M('3 C04', 'Hamilton product against a written-out oracle, associativity, distributivity, conjugate anti-automorphism, norm multiplicativity, q*invert(q)=1 for q != 0, q*v = v + 2 qv x (qv x v + s v) for every q, and for |q|^2 = 1 (a constraint, not a sample) equality with the sandwich product, length preservation and (pq)v = p(qv); Sum/Product folds.'),
  'C05': M('3 C05', 'for every unit quaternion (constraint |q|^2 = 1) the Matrix3/Matrix4/Basis3 conversions equal the textbook matrix, rotate vectors identically, are orthonormal with det +1, respect composition, and Quaternion::from(Matrix3::from(q)) is q or -q on each of the four branches (each branch also proved reachable).'),
+ 'C08': M('3 C08', 'for all five Transform implementations (Decomposed with Quaternion, Basis3, Basis2 rotations; Matrix3 as 2-D and 3-D; Matrix4) with symbolic scale, unit rotation (constraint), displacement, point and vector: concat / * / concat_self equal sequential application, one() is neutral, transform_vector ignores displacement, inverse_transform is None for scale 0 / det 0 and for |scale| > 1e-6 (ulps_eq contract) / det != 0 undoes the transform both ways with inverse_transform_vector agreeing, and conversion to Matrix3/Matrix4 commutes with apply, compose and invert. Matrix4 vector laws are stated for affine matrices (transform_vector drops the homogeneous coordinate), point laws where the homogeneous w is non-zero.'),
+ 'C10': M('3 C10', 'ortho maps the 8 box corners to the cube corners; frustum maps near and similar far rectangle corners to the z = -1/+1 faces after the divide by w = -z; perspective equals frustum(to_perspective()) and its entries on the whole valid domain; planar maps the z = 0 window to [-1,1]^2, z=-n to -1, z=-f to +1, focal point at (h/2)cot(fovy/2); and for each documented precondition of perspective/frustum/planar, with that precondition violated NO path returns (all end in the panic), while valid parameters have no feasible panic path. tan is opaque with 0<t<pi/2 => tan t > 0, pi symbolic.'),
  'C09': M('3 C09', 'every 3-D look_to/look_at entry point (Matrix4 rh/lh, deprecated aliases, Matrix3, Transform impls, Basis3, Quaternion, Decomposed with Basis3 and Quaternion) for symbolic eye, direction and up in general position (d != 0, d x up != 0): rotation block orthonormal with det +1, eye to origin, d to -z (rh) / +z (lh), up into x = 0, y >= 0, look_at = look_to of center - eye, and agreement between representations; the doubly normalised up row is handled by solver-checked lemmas on the code\'s own terms; 2-D Matrix2/Basis2::look_at both flip branches.'),
  'C11': M('3 C11', 'magnitude/distance/normalize/normalize_to/project_on for Vector1-4, Point1-3 and Quaternion with sqrt as an axiomatised opaque function, and angle(): |u||v|cos = u.v, range and symmetry for the acos form (dimension 1, 4, quaternion; Cauchy-Schwarz via a solver-checked Lagrange-identity lemma) and the atan2 forms (2-D signed, 3-D), using scalar lemma functions that are themselves harnesses.'),
  'C12': M('3 C12', 'the affine-space laws, to_vec/from_vec/origin, scalar and ElementWise operators, dot, midpoint, centroid of 1-4 points (the slice iterator runs in the executor) and homogeneous coordinates for Point1-3 at the abstract real scalar, and the laws at i32 with bounded inputs.', 'dimensions 1-3; centroid over 1-4 points; integer inputs |x| <= 1000'),
